@@ -317,6 +317,20 @@ def type_find_turns(ctx):
     ty = Typer(sample_names=("samples",))
     bodies = list(ft.node.body)
     nested = [n for n in ft.node.body if isinstance(n, ast.FunctionDef)]
+    # private module-level helpers find_turns calls (closures moved out of the function) are typed like the closures
+    outer = {}
+    for c_ in calls_in(ft.node):
+        for k_ in prog.resolve_call(ft, c_):
+            h_ = prog.functions.get(k_)
+            if h_ is not None and h_.module is ft.module and h_.cls is None and h_.parent is None and h_.name.startswith("_") and \
+                    isinstance(h_.node, ast.FunctionDef):
+                outer[h_.name] = h_
+    nested = nested + [h_.node for h_ in outer.values()]
+    # a first pass over the body gives the types of the arguments the helpers are called with
+    pre = Typer(sample_names=("samples",))
+    for _ in range(2):
+        for s_ in walk_stmts([x_ for x_ in ft.node.body if not isinstance(x_, ast.FunctionDef)]):
+            pre.assign(s_)
     for nf in nested:
         rets = [s_ for s_ in walk_stmts(nf.body) if isinstance(s_, ast.Return) and s_.value is not None]
         t2 = Typer(sample_names=("samples",))
@@ -325,7 +339,13 @@ def type_find_turns(ctx):
         if "index" in [a.arg for a in nf.args.args]:
             t2.env["index"] = "I"
             t2.env["nans"] = "I"
-        fi_n = prog.functions.get(ft.key + "." + nf.name)
+        for c_ in calls_in(ft.node):
+            if isinstance(c_.func, ast.Name) and c_.func.id == nf.name:
+                for a_, v_ in zip(nf.args.args, c_.args):
+                    tv = pre.t(v_)
+                    if tv is not None and a_.arg not in t2.env:
+                        t2.env[a_.arg] = tv
+        fi_n = prog.functions.get(ft.key + "." + nf.name) or outer.get(nf.name)
         anti, n = _type_function(ctx, fi_n or ft, nf.body, t2, "affine", "find_turns." + nf.name)
         rt = {t2.t(r_.value) for r_ in rets if not isinstance(r_.value, ast.Tuple)}
         if len(rt) == 1 and None not in rt:
